@@ -1,5 +1,8 @@
 // Implementation-side driver for the number formatters behind FakeOStream (C20).
 #include "proto.hh"
+#include <vector>
+#include <sstream>
+#include "util/buffered_stream.hh"
 #include "util/integer_to_string.hh"
 #include "util/float_to_string.hh"
 #include "util/file_stream.hh"
@@ -81,6 +84,44 @@ static Reg r_stream("fmt.stream", [](const std::vector<std::string> &a) -> std::
     out << v;
   }
   return "ok - 0 0";
+});
+
+// bstream.run <tokens>: the real util::BufferedStream over a Writer that records what it is given.
+// tokens: w<n> = write() of n bytes (pattern v++ % 251), u<d> = operator<< of the d-digit number 10^(d-1),
+// c = operator<< of 'x', f = flush(); then the stream is destroyed.  -> ok <chunk sizes csv|-> <Writer::flush calls> bytes-ok|BYTES-DIFFER
+namespace {
+struct RecordingWriter {
+  RecordingWriter(std::vector<size_t> *sizes, std::string *content, size_t *flushes) : sizes_(sizes), content_(content), flushes_(flushes) {}
+  void write(const void *data, size_t amount) { sizes_->push_back(amount); content_->append(static_cast<const char *>(data), amount); }
+  void flush() { ++*flushes_; }
+  std::vector<size_t> *sizes_; std::string *content_; size_t *flushes_;
+};
+}
+static Reg r_bstream("bstream.run", [](const std::vector<std::string> &a) -> std::string {
+  if (a.size() != 1) return "bad-op";
+  std::vector<std::string> toks;
+  if (a[0] != "-") { std::istringstream is(a[0]); std::string t; while (std::getline(is, t, ',')) if (!t.empty()) toks.push_back(t); }
+  std::vector<size_t> sizes; std::string content, want; size_t flushes = 0;
+  auto number = [](const std::string &t) { int d = atoi(t.c_str() + 1); if (d < 1) d = 1; if (d > 20) d = 20; uint64_t v = 1; for (int i = 1; i < d; ++i) v *= 10; return v; };
+  unsigned char v = 0;
+  {
+    util::BufferedStream<RecordingWriter> out(&sizes, &content, &flushes);
+    for (const std::string &t : toks) {
+      if (t[0] == 'u') { out << number(t); want += std::to_string(number(t)); }
+      else if (t[0] == 'c') { out << 'x'; want.push_back('x'); }
+      else if (t[0] == 'f') out.flush();
+      else if (t[0] == 'w') {
+        std::string chunk((size_t)strtoul(t.c_str() + 1, NULL, 10), 0);
+        for (char &c : chunk) c = (char)(v++ % 251);
+        out.write(chunk.data(), chunk.size());
+        want += chunk;
+      } else return "bad-op";
+    }
+  }
+  std::string o = "ok ";
+  if (sizes.empty()) o += "-";
+  for (size_t i = 0; i < sizes.size(); ++i) { if (i) o += ","; o += std::to_string(sizes[i]); }
+  return o + " " + std::to_string(flushes) + " " + (content == want ? "bytes-ok" : "BYTES-DIFFER");
 });
 
 int main() { return pv::main_loop(); }
